@@ -223,7 +223,8 @@ static std::string elemSpelling(const Param &p, int i, std::string &decls) {
     for (size_t f = 0; f < p.fields.size(); ++f) {
       const Field &fd = p.fields[f];
       if (fd.vecBase >= 0) body << VECS[fd.vecBase].text << fd.vn; else body << SCALARS[fd.scalar].text;
-      body << " f" << f;
+      // field names are not always in alphabetical order: build.json must keep *declaration* order
+      if ((i + p.fields.size()) % 2) body << " " << "wvut"[f % 4] << f; else body << " f" << f;
       if (fd.arr) body << "[" << fd.arr << "]";
       body << "; ";
     }
